@@ -53,7 +53,6 @@ MAP_DEFAULT_PATHS = {'MemoryMap': 'maps/all.html', 'RoutinesMap': 'maps/routines
                      'MessagesMap': 'maps/messages.html', 'UnusedMap': 'maps/unused.html', 'GameStatusBuffer': 'buffers/gbuffer.html'}
 BOX_DEFAULTS = {'Bugs': ('Bug', 'reference/bugs.html'), 'Facts': ('Fact', 'reference/facts.html'), 'Pokes': ('Poke', 'reference/pokes.html'),
                 'Glossary': ('Glossary', 'reference/glossary.html'), 'GraphicGlitches': ('GraphicGlitch', 'graphics/glitches.html')}
-DIRS = ['d1', 'pages', 'x/y', 'deep/er/still', 'Out', 'o.dir', 'sp ace', 'u_u']
 
 PNG_BYTES = (b'\x89PNG\r\n\x1a\n\x00\x00\x00\rIHDR\x00\x00\x00\x01\x00\x00\x00\x01\x08\x00\x00\x00\x00:~\x9bU'
              b'\x00\x00\x00\nIDATx\x9cc`\x00\x00\x00\x02\x00\x01H\xaf\xa4q\x00\x00\x00\x00IEND\xaeB`\x82')
@@ -357,8 +356,9 @@ class Case:
 
 def _unique_paths(rng):
     """Pool of distinct relative directory names / file names."""
-    dirs = ['asm', 'code/main', 'c', 'maps', 'm/a/p', 'reference', 'ref', 'buffers', 'graphics', 'images', 'img/all', 'i', 'audio', 'snd/x',
-            'css', 'styles/a', 'js', 'scripts/b', 'pg', 'other/pages', 'fonts', 'one', 'two/three', 'zz']
+    # none of these is (a prefix of) a default directory or an other-code id, so a fresh name can never collide with a default path
+    dirs = ['code/main', 'c', 'm/a/p', 'ref', 'bufs', 'gfx', 'img/all', 'i', 'snd/x', 'css', 'styles/a', 'js', 'scripts/b', 'pg',
+            'other/pages', 'fonts', 'one', 'two/three', 'zz', 'Dir With Space', 'd.e', 'very/deep/dir/tree', 'k', 'q/r']
     rng.shuffle(dirs)
     return dirs
 
@@ -495,8 +495,12 @@ def gen_case(rng):
         game['Bytes'] = '02X'
 
     dirs = _unique_paths(rng)
+    extra_dirs = [0]
     def newdir():
-        return dirs.pop()
+        if dirs:
+            return dirs.pop()
+        extra_dirs[0] += 1
+        return 'xd%d' % extra_dirs[0]
     custom_paths = rng.random() < 0.6
     def maybe(key, default, gen):
         if custom_paths and rng.random() < 0.4:
@@ -805,15 +809,28 @@ def gen_case(rng):
     rng.shuffle(sections)
     # some settings travel on the command line instead of the ref file
     ref_lines = []
+    appended = []
+    def emit(name, lines):
+        ref_lines.append('[%s]' % name)
+        if rng.random() < 0.1:
+            ref_lines.append('; a comment line')
+        # a content line that starts with ';' or '[' is escaped by doubling that character
+        ref_lines.extend((l[0] + l) if l[:1] in (';', '[') else l for l in lines)
+        ref_lines.append('')
     for name, lines in sections:
         if name in ('Game', 'Paths') and lines and rng.random() < 0.25:
             k = rng.randrange(len(lines))
             argv += ['-c', '%s/%s' % (name, lines[k])]
             lines = lines[:k] + lines[k + 1:]
             f.add('-c')
-        ref_lines.append('[%s]' % name)
-        ref_lines.extend((';' + l) if l.startswith(';') else l for l in lines)
-        ref_lines.append('')
+        if name in ('Game', 'Paths') and len(lines) >= 2 and rng.random() < 0.3:
+            k = rng.randrange(1, len(lines))
+            appended.append((name + '+', lines[k:]))        # [Name+] appends to the section
+            lines = lines[:k]
+            f.add('[Section+]')
+        emit(name, lines)
+    for name, lines in appended:
+        emit(name, lines)
     split_ref = rng.random() < 0.15 and len(ref_lines) > 6
     if split_ref:
         # second ref file picked up by the prefix*.ref glob
